@@ -1,11 +1,240 @@
 import IstioModel.C12.Model
 
-/-! Virtual hosts and domains (item 2) - model of `generateVirtualHostDomains`, `dedupeDomains`. -/
+/-!
+# C12 (part 2): virtual hosts and domains of the sidecar outbound route configuration
+
+Model of `pilot/pkg/networking/core/httproute.go`: `generateVirtualHostDomains`,
+`GenerateAltVirtualHosts`, `generateAltVirtualHostsForKubernetesService`,
+`getUniqueAndSharedDNSDomain`, `appendDomainPort`, `dedupeDomains` and the `buildVirtualHost` closure
+of `BuildSidecarOutboundVirtualHosts` (duplicate virtual-host names, shared `vhdomains` set);
+`model.MostSpecificHostMatch` (most specific VirtualService host for a service).
+
+Strings are ASCII host names; Go byte indices coincide with character indices.
+`features.EnableAbsoluteFqdnVhostDomain` is modelled at its default `true`.
+
+Core Lean only.
+-/
 namespace IstioModel.C12
 
-structure VHDriver where
-  dummy : Nat := 0
+/-! ## string helpers (Go `strings`) -/
 
-def vhStep (_v : VHDriver) (_toks : List String) : Option (VHDriver × String) := none
+def cs (s : String) : List Char := s.toList
+def mk (l : List Char) : String := String.ofList l
+
+/-- `strings.Index` on character lists. -/
+def indexOf (pat : List Char) : List Char → Option Nat
+  | [] => if pat.isEmpty then some 0 else none
+  | c :: t => if pat.isPrefixOf (c :: t) then some 0 else (indexOf pat t).map (· + 1)
+
+def containsStr (pat s : String) : Bool := (indexOf (cs pat) (cs s)).isSome
+def hasSuffixStr (s suf : String) : Bool := (cs suf).reverse.isPrefixOf (cs s).reverse
+
+/-- `net.JoinHostPort(host, itoa port)` = `util.DomainName`. -/
+def domainName (h : String) (port : Nat) : String :=
+  if containsStr ":" h then "[" ++ h ++ "]:" ++ toString port else h ++ ":" ++ toString port
+
+/-- `util.IPv6Compliant`. -/
+def ipv6Compliant (h : String) : String := if containsStr ":" h then "[" ++ h ++ "]" else h
+
+/-- `appendDomainPort`; port 0 = `portNoAppendPortSuffix`. -/
+def appendDomainPort (domains : List String) (d : String) (port : Nat) : List String :=
+  if port == 0 then domains ++ [ipv6Compliant d] else domains ++ [ipv6Compliant d, domainName d port]
+
+/-- `removeSvcNamespace`: everything from `.svc.` on, if it occurs at a positive index. -/
+def removeSvcNamespace (d : String) : String :=
+  match indexOf (cs ".svc.") (cs d) with
+  | some i => if i > 0 then mk ((cs d).drop i) else d
+  | none => d
+
+/-- `strings.Split(s, ".")` (structural, so that closed instances reduce). -/
+def splitChar (c : Char) : List Char → List (List Char)
+  | [] => [[]]
+  | x :: xs =>
+    if x == c then [] :: splitChar c xs
+    else match splitChar c xs with
+      | [] => [[x]]
+      | h :: t => (x :: h) :: t
+
+def splitDots (s : String) : List String := (splitChar '.' (cs s)).map mk
+
+/-- Length of the common prefix of two label lists. -/
+def commonPrefixLen : List String → List String → Nat
+  | a :: as, b :: bs => if a == b then commonPrefixLen as bs + 1 else 0
+  | _, _ => 0
+
+/-- `getUniqueAndSharedDNSDomain`. -/
+def uniqueAndShared (fqdn proxyDomain : String) : List String × List String :=
+  let pf := (splitDots fqdn).reverse
+  let pp := (splitDots proxyDomain).reverse
+  let n := commonPrefixLen pf pp
+  if n == 0 then (splitDots fqdn, []) else ((pf.drop n).reverse, (pf.take n).reverse)
+
+/-- `generateAltVirtualHostsForKubernetesService`. -/
+def altHostsKube (hostname : String) (port : Nat) (proxyDomain : String) : List String :=
+  let h := cs hostname
+  let before := match indexOf (cs ".svc.") (cs proxyDomain) with
+    | some i => mk ((cs proxyDomain).take i)
+    | none => proxyDomain
+  match indexOf (cs ".svc.") h with
+  | none => []
+  | some ih =>
+    if ih == 0 then [] else
+    match indexOf ['.'] h with
+    | none => []
+    | some ns =>
+      if ns + 1 >= h.length || ns + 1 > ih then [] else
+      let name := mk (h.take ns)
+      let nameNs := mk (h.take ih)
+      if mk ((h.take ih).drop (ns + 1)) == before then
+        if port == 0 then [name, nameNs ++ ".svc", nameNs]
+        else [name, domainName name port, nameNs ++ ".svc", domainName (nameNs ++ ".svc") port, nameNs, domainName nameNs port]
+      else
+        if port == 0 then [nameNs, nameNs ++ ".svc"]
+        else [nameNs, domainName nameNs port, nameNs ++ ".svc", domainName (nameNs ++ ".svc") port]
+
+/-- `GenerateAltVirtualHosts` (`isIP` = `net.ParseIP(hostname) != nil`). -/
+def altHosts (hostname : String) (isIP : Bool) (port : Nat) (proxyDomain : String) : List String :=
+  let v0 := (if isIP then [] else [hostname ++ "."]) ++ (if port != 0 then [domainName (hostname ++ ".") port] else [])
+  if containsStr ".svc." proxyDomain then
+    if hasSuffixStr hostname (removeSvcNamespace proxyDomain) then v0 ++ altHostsKube hostname port proxyDomain
+    else v0
+  else
+    let us := uniqueAndShared hostname proxyDomain
+    if us.2.isEmpty then v0 else
+    if us.1.isEmpty then v0 else      -- F-C12-3 fix: hostname is the proxy domain or a parent of it
+    let uniq := ".".intercalate us.1
+    let v1 := appendDomainPort v0 uniq port
+    if us.1.length == 2 then appendDomainPort v1 (uniq ++ "." ++ us.2.headD "") port else v1
+
+/-- The generic (non-Kubernetes) branch before the F-C12-3 fix, kept for the witness theorem. -/
+def altHostsGenericUnfixed (hostname : String) (port : Nat) (proxyDomain : String) : List String :=
+  let us := uniqueAndShared hostname proxyDomain
+  if us.2.isEmpty then [] else
+  let uniq := ".".intercalate us.1
+  let v1 := appendDomainPort [] uniq port
+  if us.1.length == 2 then appendDomainPort v1 (uniq ++ "." ++ us.2.headD "") port else v1
+
+/-- Inputs of `generateVirtualHostDomains` the result depends on. -/
+structure DomSvc where
+  hostname : String
+  aliases : List String := []
+  isIP : List Bool := []            -- `net.ParseIP` verdict for hostname :: aliases
+  passthroughKube : Bool := false   -- Resolution == Passthrough && registry == Kubernetes
+  addresses : List String := []     -- `service.GetAllAddressesForProxy(node)`
+
+def domLoop (port : Nat) (proxyDomain : String) : List (String × Bool) → List String × List String
+  | [] => ([], [])
+  | (s, ip) :: rest =>
+    let alt := altHosts s ip port proxyDomain
+    let r := domLoop port proxyDomain rest
+    (appendDomainPort [] s port ++ alt ++ r.1, alt ++ r.2)
+
+/-- `generateVirtualHostDomains`: (domains, allAltHosts). -/
+def generateVirtualHostDomains (svc : DomSvc) (listenerPort port : Nat) (proxyDomain : String) (proxyless : Bool) :
+    List String × List String :=
+  let port := if !proxyless && listenerPort != 0 then 0 else port
+  let all := (svc.hostname :: svc.aliases).zip (svc.isIP ++ List.replicate (svc.aliases.length + 1) false)
+  let r := domLoop port proxyDomain all
+  let d1 := if svc.passthroughKube then r.1 ++ r.1.map (fun d => "*." ++ d) else r.1
+  let d2 := svc.addresses.foldl (fun acc a => if a != "" && a != "0.0.0.0" then appendDomainPort acc a port else acc) d1
+  (d2, r.2)
+
+/-! ## dedupeDomains and the virtual-host loop -/
+
+/-- `dedupeDomains`: kept domains and the updated `vhdomains` set (a list read as a set). -/
+def dedupeLoop (expanded known : List String) : List String → List String → List String × List String
+  | [], vh => ([], vh)
+  | d :: ds, vh =>
+    if vh.contains (lower d) then dedupeLoop expanded known ds vh
+    else if expanded.contains d && known.contains d then dedupeLoop expanded known ds vh
+    else ((d :: (dedupeLoop expanded known ds (lower d :: vh)).1), (dedupeLoop expanded known ds (lower d :: vh)).2)
+
+/-- One call of the `buildVirtualHost` closure: name, generated domains, expanded (alt) hosts, routes. -/
+structure VHInput where
+  name : String
+  domains : List String
+  altHosts : List String := []
+  routes : List Route := []
+
+/-- The `buildVirtualHost` calls of `BuildSidecarOutboundVirtualHosts` in sequence: a repeated
+    virtual-host name is skipped, domains are de-duplicated against everything kept so far, a virtual
+    host left without domains is dropped. -/
+def buildVHosts (known : List String) : List VHInput → List String → List String → List VirtualHost
+  | [], _, _ => []
+  | i :: is, names, vhd =>
+    if names.contains i.name then buildVHosts known is names vhd
+    else if (dedupeLoop i.altHosts known i.domains vhd).1.isEmpty then
+      buildVHosts known is (i.name :: names) (dedupeLoop i.altHosts known i.domains vhd).2
+    else
+      { name := i.name, domains := (dedupeLoop i.altHosts known i.domains vhd).1, routes := i.routes }
+        :: buildVHosts known is (i.name :: names) (dedupeLoop i.altHosts known i.domains vhd).2
+
+/-! ## most specific VirtualService host (`model.MostSpecificHostMatch`, `host.MoreSpecific`) -/
+
+def isWildcarded (h : String) : Bool := hasPrefix "*" h
+
+/-- `host.MoreSpecific` for two wildcard hosts: longer first, ties alphabetically. -/
+def moreSpecific (a b : String) : Bool :=
+  if a.length == b.length then a < b else a.length > b.length
+
+/-- `mostSpecificHostWildcardMatch`: fold over an arbitrary enumeration of the wildcard map keys. -/
+def wildcardMatch (needle : String) : List String → Option String → Option String
+  | [], best => best
+  | h :: hs, best =>
+    if hasSuffixStr needle (mk ((cs h).drop 1)) then
+      match best with
+      | none => wildcardMatch needle hs (some h)
+      | some b => if moreSpecific h b then wildcardMatch needle hs (some h) else wildcardMatch needle hs best
+    else wildcardMatch needle hs best
+
+/-- `MostSpecificHostMatch`: exact key first, else the most specific matching wildcard key. -/
+def mostSpecificHostMatch (needle : String) (specific wildcard : List String) : Option String :=
+  if isWildcarded needle then
+    if wildcard.contains needle then some needle
+    else wildcardMatch (mk ((cs needle).drop 1)) wildcard none
+  else if specific.contains needle then some needle
+  else wildcardMatch needle wildcard none
+
+/-! ## `selectVirtualServices` (httproute.go) and `host.Name.Matches` -/
+
+def drop1 (s : String) : String := mk ((cs s).drop 1)
+
+/-- `host.Name.Matches`. -/
+def hostMatches (n o : String) : Bool :=
+  if isWildcarded n then
+    if isWildcarded o then
+      (if n.length < o.length then hasSuffixStr (drop1 o) (drop1 n) else hasSuffixStr (drop1 n) (drop1 o))
+    else hasSuffixStr o (drop1 n)
+  else if isWildcarded o then hasSuffixStr n (drop1 o)
+  else n == o
+
+/-- One VirtualService is selected when some host of it (lower-cased) is a service host, or - wildcard
+    host - matches some service host, or - plain host - is matched by some wildcard service host. -/
+def vsSelected (svcHosts : List String) (hosts : List String) : Bool :=
+  hosts.any fun h =>
+    let l := lower h
+    svcHosts.contains l ||
+      (if isWildcarded l then svcHosts.any (fun s => hostMatches l s)
+       else (svcHosts.filter isWildcarded).any (fun s => hostMatches l s))
+
+/-- `selectVirtualServices`: order-preserving filter. -/
+def selectVS (svcHosts : List String) (vss : List (String × List String)) : List String :=
+  (vss.filter (fun v => vsSelected svcHosts v.2)).map (·.1)
+
+/-- Side condition of `sortVHost_sound` for one request: no non-catch-all route placed after the
+    first catch-all route accepts the request. -/
+def sortSafe (re : Regex) (routes : List Route) (req : Request) : Bool :=
+  match routes.dropWhile (fun r => !isCatchAll r) with
+  | [] => true
+  | _ :: post => post.all (fun r => isCatchAll r || !r.match.eval re req)
+
+/-! ## driver hooks for stream `vhosts` (state lives in `Driver.lean`) -/
+
+structure VHDriver where
+  known : List String := []
+  names : List String := []
+  vhd : List String := []
+  vhosts : List VirtualHost := []
+  acc : List Route := []
 
 end IstioModel.C12
